@@ -95,7 +95,7 @@ class Ctx:
 
     def tlc(self, module, cfg=None, workers=None, env=None, simulate=None, depth=None,
             timeout=900, deadlock=False, tag=None, coverage=False, expect_ok=True,
-            dfs=False, seed=None):
+            dfs=False, seed=None, extra=None):
         """Run TLC on spec `module` (in the work dir) with config text/file."""
         tag = tag or module
         cfgname = module + ".cfg"
@@ -120,6 +120,8 @@ class Ctx:
                 cmd += ["-depth", str(depth)]
         if simulate is not None or seed is not None:
             cmd += ["-seed", str(self.seed if seed is None else seed)]
+        if extra:
+            cmd += list(extra)
         cmd.append(module)
         e = dict(os.environ)
         e.pop("JAVA_TOOL_OPTIONS", None)
